@@ -215,3 +215,139 @@ Fixpoint history_ok (g : gst) (evs : list event) : Prop :=
   | [] => True
   | e :: r => event_ok g e /\ history_ok (snd e) r
   end.
+
+(* ================================================================================================== *)
+(* Part 2 — "a closed instrument performs no device I/O": the RPC methods of a driver.
+
+   Every @rpc_method (other than open/close) of every transport-based driver class, and every helper it
+   calls, is regenerated as a term of [mprog] (coq/gen/C19Methods.v).  The language is richer in control flow
+   than [prog] (loops, return, break, function calls) because arbitrary methods are translated, and poorer in
+   state: a method program cannot open or close the link or write the flag (the translator refuses methods
+   that do), so flag and link are constants of an execution and the only thing that evolves is the ghost log
+   [m_touched] of operations that reached the device (or another resource) during the call.
+
+     MDev l   an operation on the transport, or on a protocol object constructed around it
+              (ScpiProtocol(self._transport) ...): if the link is released the transport's own
+              _check_is_open refuses — raises, device NOT touched; if it is held the device is touched and
+              the operation may fail or not.
+     MEff l   an operation on any other resource held by the driver (thread, timer, handle ...) or something
+              the translator cannot classify: not guarded by the transport — counts as touching.
+     MIo l    any other Python code: may raise or not, touches nothing.
+     MCheckOpen / MCheckClosed   self._check_is_open() / self._check_is_closed()
+     MAssumeOpen / MAssumeClosed the two branches of `if self._is_open:` (a blocked branch has no execution)  *)
+
+Inductive mprog :=
+| MSkip
+| MSeq (p q : mprog)
+| MIo (l : N)
+| MDev (l : N)
+| MEff (l : N)
+| MCheckOpen
+| MCheckClosed
+| MAssumeOpen
+| MAssumeClosed
+| MRaise
+| MReturn
+| MBreak                       (* break and continue: leave the current iteration *)
+| MChoice (p q : mprog)
+| MTry (body handler : mprog)
+| MFinally (body fin : mprog)
+| MLoop (body : mprog)         (* zero or more iterations *)
+| MCall (body : mprog).        (* function boundary: a return ends here *)
+
+Fixpoint mseql (l : list mprog) : mprog :=
+  match l with
+  | [] => MSkip
+  | [p] => p
+  | p :: r => MSeq p (mseql r)
+  end.
+
+Inductive mout := ONormal | OExc | ORet | OBrk.
+
+Record mst := mk_mst { m_flag : bool; m_held : bool; m_touched : list N }.
+Definition touch (l : N) (s : mst) : mst := mk_mst (m_flag s) (m_held s) (m_touched s ++ [l]).
+
+Definition call_out (o : mout) : mout := match o with OExc => OExc | _ => ONormal end.
+
+Inductive mexec : mprog -> mst -> mout -> mst -> Prop :=
+| M_Skip s : mexec MSkip s ONormal s
+| M_SeqN p q s s1 o s2 : mexec p s ONormal s1 -> mexec q s1 o s2 -> mexec (MSeq p q) s o s2
+| M_SeqA p q s o s1 : mexec p s o s1 -> o <> ONormal -> mexec (MSeq p q) s o s1
+| M_IoOk l s : mexec (MIo l) s ONormal s
+| M_IoRaise l s : mexec (MIo l) s OExc s
+| M_DevOk l s : m_held s = true -> mexec (MDev l) s ONormal (touch l s)
+| M_DevFault l s : m_held s = true -> mexec (MDev l) s OExc (touch l s)
+| M_DevRefused l s : m_held s = false -> mexec (MDev l) s OExc s
+| M_EffOk l s : mexec (MEff l) s ONormal (touch l s)
+| M_EffFault l s : mexec (MEff l) s OExc (touch l s)
+| M_CheckOpenOk s : m_flag s = true -> mexec MCheckOpen s ONormal s
+| M_CheckOpenRaise s : m_flag s = false -> mexec MCheckOpen s OExc s
+| M_CheckClosedOk s : m_flag s = false -> mexec MCheckClosed s ONormal s
+| M_CheckClosedRaise s : m_flag s = true -> mexec MCheckClosed s OExc s
+| M_AssumeOpen s : m_flag s = true -> mexec MAssumeOpen s ONormal s
+| M_AssumeClosed s : m_flag s = false -> mexec MAssumeClosed s ONormal s
+| M_Raise s : mexec MRaise s OExc s
+| M_Return s : mexec MReturn s ORet s
+| M_Break s : mexec MBreak s OBrk s
+| M_ChoiceL p q s o s1 : mexec p s o s1 -> mexec (MChoice p q) s o s1
+| M_ChoiceR p q s o s1 : mexec q s o s1 -> mexec (MChoice p q) s o s1
+| M_TryPass b h s o s1 : mexec b s o s1 -> o <> OExc -> mexec (MTry b h) s o s1
+| M_TryCatch b h s s1 o s2 : mexec b s OExc s1 -> mexec h s1 o s2 -> mexec (MTry b h) s o s2
+| M_FinN b f s o1 s1 s2 : mexec b s o1 s1 -> mexec f s1 ONormal s2 -> mexec (MFinally b f) s o1 s2
+| M_FinA b f s o1 s1 o2 s2 : mexec b s o1 s1 -> mexec f s1 o2 s2 -> o2 <> ONormal -> mexec (MFinally b f) s o2 s2
+| M_LoopStop b s : mexec (MLoop b) s ONormal s
+| M_LoopIter b s o1 s1 o s2 :
+    mexec b s o1 s1 -> (o1 = ONormal \/ o1 = OBrk) -> mexec (MLoop b) s1 o s2 -> mexec (MLoop b) s o s2
+| M_LoopExc b s s1 : mexec b s OExc s1 -> mexec (MLoop b) s OExc s1
+| M_LoopRet b s s1 : mexec b s ORet s1 -> mexec (MLoop b) s ORet s1
+| M_Call p s o s1 : mexec p s o s1 -> mexec (MCall p) s (call_out o) s1.
+
+(* the analyser: which outcomes are possible, and can anything be touched, for given (constant) flag and link *)
+Record res := mk_res { rn : bool; rx : bool; rr : bool; rb : bool; rt : bool }.
+Definition r_none : res := mk_res false false false false false.
+Definition r_n : res := mk_res true false false false false.
+Definition r_x : res := mk_res false true false false false.
+Definition r_or (a b : res) : res :=
+  mk_res (rn a || rn b) (rx a || rx b) (rr a || rr b) (rb a || rb b) (rt a || rt b).
+Definition r_any (a : res) : bool := rn a || rx a || rr a || rb a.
+
+Fixpoint an (f h : bool) (p : mprog) : res :=
+  match p with
+  | MSkip => r_n
+  | MSeq p q =>
+      let a := an f h p in
+      if rn a then let b := an f h q in
+                   mk_res (rn b) (rx a || rx b) (rr a || rr b) (rb a || rb b) (rt a || rt b)
+      else a
+  | MIo _ => mk_res true true false false false
+  | MDev _ => if h then mk_res true true false false true else r_x
+  | MEff _ => mk_res true true false false true
+  | MCheckOpen => if f then r_n else r_x
+  | MCheckClosed => if f then r_x else r_n
+  | MAssumeOpen => if f then r_n else r_none
+  | MAssumeClosed => if f then r_none else r_n
+  | MRaise => r_x
+  | MReturn => mk_res false false true false false
+  | MBreak => mk_res false false false true false
+  | MChoice p q => r_or (an f h p) (an f h q)
+  | MTry b hd =>
+      let a := an f h b in
+      if rx a then let c := an f h hd in
+                   mk_res (rn a || rn c) (rx c) (rr a || rr c) (rb a || rb c) (rt a || rt c)
+      else a
+  | MFinally b fi =>
+      let a := an f h b in
+      if r_any a then let c := an f h fi in
+                      mk_res (rn a && rn c) ((rx a && rn c) || rx c) ((rr a && rn c) || rr c)
+                             ((rb a && rn c) || rb c) (rt a || rt c)
+      else a
+  | MLoop b => let a := an f h b in mk_res true (rx a) (rr a) false (rt a)
+  | MCall p => let a := an f h p in mk_res (rn a || rr a || rb a) (rx a) false false (rt a)
+  end.
+
+Definition allowed (o : mout) (a : res) : bool :=
+  match o with ONormal => rn a | OExc => rx a | ORet => rr a | OBrk => rb a end.
+
+(* the per-method obligation: on a closed instrument with the link released nothing can be touched *)
+Definition m_closed0 : mst := mk_mst false false [].
+Definition closed_safe (p : mprog) : bool := negb (rt (an false false p)).
